@@ -160,7 +160,7 @@ private:
 class RecGoal : public ob::GoalSampleableRegion
 {
 public:
-    RecGoal(const ob::SpaceInformationPtr &si, std::shared_ptr<ob::GoalState> inner, std::shared_ptr<DrawLog> log)
+    RecGoal(const ob::SpaceInformationPtr &si, std::shared_ptr<ob::GoalSampleableRegion> inner, std::shared_ptr<DrawLog> log)
       : ob::GoalSampleableRegion(si), inner_(std::move(inner)), log_(std::move(log))
     {
     }
@@ -181,7 +181,7 @@ public:
     }
 
 private:
-    std::shared_ptr<ob::GoalState> inner_;
+    std::shared_ptr<ob::GoalSampleableRegion> inner_;
     std::shared_ptr<DrawLog> log_;
 };
 
@@ -209,6 +209,18 @@ public:
                 s += (i ? "," : "") + vp::bits(r[i]);
         }
         return s;
+    }
+    // index (insertion order) of lastGoalMotion_, -1 if null / not in the tree
+    long lastGoalIndex() const
+    {
+        if (lastGoalMotion_ == nullptr || !nn_)
+            return -1;
+        std::vector<Motion *> ms;
+        nn_->list(ms);
+        for (size_t i = 0; i < ms.size(); ++i)
+            if (ms[i] == lastGoalMotion_)
+                return (long)i;
+        return -2;  // dangling: points outside the tree
     }
 };
 
@@ -458,6 +470,7 @@ struct Config
     double res = 0.01;
     std::vector<std::vector<std::string>> starts;
     std::vector<std::string> goal;
+    std::vector<std::vector<std::string>> moreGoals;  // further `goal` lines: the goal becomes a GoalStates
     double thr = std::numeric_limits<double>::epsilon();
     std::string planner = "RRT";
     bool hasRange = false, hasBias = false, hasInterm = false;
@@ -468,6 +481,7 @@ struct Config
     bool trace = false;
     std::vector<double> oneway;  // lo0 lo1 hi0 hi1 of the one-way box (empty: none)
     bool costThrInf = true;  // LazyPRM lock-step: cost threshold of the objective (inf = LazyPRM's own default)
+    std::vector<std::string> hist;  // mode history: the calls made on ONE RRT object / problem definition
 };
 
 static std::string dstr(double d)
@@ -665,8 +679,33 @@ static int runOnce(const Config &c)
         if (k != c.goal.size())
             throw vp::ParseError("goal tail");
     }
-    auto gs = std::make_shared<ob::GoalState>(si);
-    gs->setState(goalState);
+    std::shared_ptr<ob::GoalSampleableRegion> gs;
+    if (c.moreGoals.empty())
+    {
+        auto g1 = std::make_shared<ob::GoalState>(si);
+        g1->setState(goalState);
+        gs = g1;
+    }
+    else
+    {
+        // several goal states (GoalStates): the first one is `goal`, the others follow in the order given; they may be
+        // invalid or out of bounds on purpose
+        if (c.planner == "Lightning")
+            throw vp::ParseError("Lightning needs a single GoalState");
+        auto gN = std::make_shared<ob::GoalStates>(si);
+        gN->addState(goalState);
+        ob::State *tmpG = si->allocState();
+        for (const auto &gt : c.moreGoals)
+        {
+            size_t k = 0;
+            vp::parseStateInto(space.get(), tmpG, gt, k);
+            if (k != gt.size())
+                throw vp::ParseError("goal tail");
+            gN->addState(tmpG);
+        }
+        si->freeState(tmpG);
+        gs = gN;
+    }
     gs->setThreshold(c.thr);
     ob::GoalPtr goal = gs;
     if (lock)
@@ -1044,6 +1083,188 @@ static int runOnce(const Config &c)
     return 0;
 }
 
+// ------------------------------------------------------------------------------------------------ histories (RRT)
+// mode history: ONE PeekRRT object and ONE problem definition, driven through the calls of `hist`:
+//    solve:<k>  clear  addstart:<b,b,..>  range:<b>  thr:<b>  interm:<0|1>  bias:<b>  setup  clearsol
+// After every call a line `H <i> op <token>`; after a solve additionally the recorded draws, status, the whole tree, the path
+// this call registered, the problem definition (count, flag, difference, every solution's flag:difference in insertion
+// order) and the counters.  `drv_rrt` replays the same history through Model/RRTHistory.lean.
+static int runHistory(const Config &c)
+{
+    ompl::RNG::setSeed(c.seed);
+    vp::quietLogs();
+    std::signal(SIGABRT, onAbort);
+    if (c.planner != "RRT")
+        throw vp::ParseError("history is RRT only");
+    size_t i = 0;
+    ob::StateSpacePtr space = vp::parseSpaceX(c.space, i);
+    if (i != c.space.size())
+        throw vp::ParseError("space tail");
+    vp::Env env;
+    i = 0;
+    env.parse(c.boxes, i);
+    if (i != c.boxes.size())
+        throw vp::ParseError("boxes tail");
+    auto draws = std::make_shared<DrawLog>();
+    space->setStateSamplerAllocator([draws](const ob::StateSpace *sp) -> ob::StateSamplerPtr {
+        return std::make_shared<RecSampler>(sp, sp->allocDefaultStateSampler(), draws);
+    });
+    auto si = std::make_shared<ob::SpaceInformation>(space);
+    auto vc = std::make_shared<vp::RecordingValidityChecker>(si, env, false);
+    si->setStateValidityChecker(vc);
+    si->setStateValidityCheckingResolution(c.res);
+    si->setup();
+    auto pdef = std::make_shared<ob::ProblemDefinition>(si);
+    std::vector<ob::State *> owned;
+    auto parseState = [&](const std::vector<std::string> &toks) {
+        ob::State *s = si->allocState();
+        owned.push_back(s);
+        size_t k = 0;
+        vp::parseStateInto(space.get(), s, toks, k);
+        if (k != toks.size())
+            throw vp::ParseError("state tail");
+        return s;
+    };
+    for (const auto &st : c.starts)
+        pdef->addStartState(parseState(st));
+    ob::State *goalState = parseState(c.goal);
+    auto gs = std::make_shared<ob::GoalState>(si);
+    gs->setState(goalState);
+    gs->setThreshold(c.thr);
+    auto rg = std::make_shared<RecGoal>(si, gs, draws);
+    rg->setThreshold(c.thr);
+    pdef->setGoal(rg);
+    pdef->setOptimizationObjective(std::make_shared<ob::PathLengthOptimizationObjective>(si));
+    auto planner = std::make_shared<PeekRRT>(si, c.hasInterm && c.interm);
+    if (c.hasRange)
+        planner->setRange(c.range);
+    if (c.hasBias)
+        planner->setGoalBias(c.bias);
+    planner->setProblemDefinition(pdef);
+    planner->setNearestNeighbors<ompl::NearestNeighborsLinear>();  // clears, installs, calls setup()
+    std::cout << "cfg lvs=" << vp::bits(space->getLongestValidSegmentLength()) << " extent=" << vp::bits(space->getMaximumExtent())
+              << " res=" << vp::bits(space->getLongestValidSegmentFraction()) << " dim=" << space->getDimension()
+              << " range=" << vp::bits(planner->getRange()) << "\n";
+    auto splitComma = [](const std::string &v) {
+        std::vector<std::string> out;
+        std::string cur;
+        for (char ch : v)
+            if (ch == ',')
+            {
+                out.push_back(cur);
+                cur.clear();
+            }
+            else
+                cur += ch;
+        out.push_back(cur);
+        return out;
+    };
+    for (size_t k = 0; k < c.hist.size(); ++k)
+    {
+        const std::string &tok = c.hist[k];
+        const size_t colon = tok.find(':');
+        const std::string op = tok.substr(0, colon);
+        const std::string arg = colon == std::string::npos ? "" : tok.substr(colon + 1);
+        const std::string H = "H " + std::to_string(k) + " ";
+        std::cout << H << "op " << tok << "\n";
+        auto bitsArg = [&]() {
+            auto v = vp::parseBits(arg);
+            if (!v)
+                throw vp::ParseError("hist argument");
+            return *v;
+        };
+        if (op == "solve")
+        {
+            auto n = vp::parseNat(arg);
+            if (!n)
+                throw vp::ParseError("hist solve");
+            {
+                std::lock_guard<std::mutex> g(draws->m);
+                draws->draws.clear();
+            }
+            const std::size_t before = pdef->getSolutionCount();
+            auto cnt = std::make_shared<vp::EvalCounter>();
+            cnt->fireAt = *n;
+            ob::PlannerStatus st;
+            std::string err;
+            try
+            {
+                st = planner->solve(vp::evalCountPtc(cnt));
+            }
+            catch (const std::exception &e)
+            {
+                err = e.what();
+                for (char &ch : err)
+                    if (ch == ' ' || ch == '\n')
+                        ch = '_';
+                std::cout << H << "exception " << err << "\n";
+            }
+            {
+                std::lock_guard<std::mutex> g(draws->m);
+                std::cout << H << "draws n=" << draws->draws.size() << "\n";
+                for (auto &d : draws->draws)
+                    std::cout << H << "draw " << d.first << " " << vp::showReals(d.second) << "\n";
+            }
+            const std::size_t after = pdef->getSolutionCount();
+            std::cout << H << "status=" << (err.empty() ? vp::statusName(st) : std::string("EXCEPTION")) << " bool="
+                      << (err.empty() && st ? 1 : 0) << " added=" << (after > before ? 1 : 0) << "\n";
+            std::cout << H << planner->dumpTree() << "\n";
+            auto sols = pdef->getSolutions();
+            std::sort(sols.begin(), sols.end(),
+                      [](const ob::PlannerSolution &a, const ob::PlannerSolution &b) { return a.index_ < b.index_; });
+            bool shown = false;
+            if (after > before)
+                for (const auto &sol : sols)
+                    if (sol.index_ == (int)before)
+                        if (auto *pg = dynamic_cast<og::PathGeometric *>(sol.path_.get()))
+                        {
+                            std::cout << H << "path n=" << pg->getStateCount();
+                            for (auto *s : pg->getStates())
+                                std::cout << " " << commaBits(vp::realsOf(space, s));
+                            std::cout << "\n";
+                            shown = true;
+                        }
+            if (!shown)
+                std::cout << H << "path none\n";
+            std::cout << H << "pdef count=" << after << " approx=" << (pdef->hasApproximateSolution() ? 1 : 0)
+                      << " diff=" << vp::bits(pdef->getSolutionDifference()) << " before=" << before << " sols=";
+            for (size_t q = 0; q < sols.size(); ++q)
+                std::cout << (q ? "," : "") << (sols[q].approximate_ ? 1 : 0) << ":" << vp::bits(sols[q].difference_);
+            if (sols.empty())
+                std::cout << "-";
+            std::cout << "\n";
+            std::cout << H << "misc nstart=" << planner->getPlannerInputStates().getSeenStartStatesCount()
+                      << " lgm=" << planner->lastGoalIndex() << " range=" << vp::bits(planner->getRange())
+                      << " interm=" << (planner->getIntermediateStates() ? 1 : 0) << " thr=" << vp::bits(rg->getThreshold()) << "\n";
+        }
+        else if (op == "clear")
+            planner->clear();
+        else if (op == "addstart")
+            pdef->addStartState(parseState(splitComma(arg)));
+        else if (op == "range")
+            planner->setRange(bitsArg());
+        else if (op == "thr")
+        {
+            gs->setThreshold(bitsArg());
+            rg->setThreshold(bitsArg());
+        }
+        else if (op == "interm" && (arg == "0" || arg == "1"))
+            planner->setIntermediateStates(arg == "1");
+        else if (op == "bias")
+            planner->setGoalBias(bitsArg());
+        else if (op == "setup")
+            planner->setup();
+        else if (op == "clearsol")
+            pdef->clearSolutionPaths();
+        else
+            throw vp::ParseError("hist op");
+    }
+    std::cout << "done\n";
+    for (auto *s : owned)
+        si->freeState(s);
+    return 0;
+}
+
 int main()
 {
     alarm(240);  // watchdog only: kills the process, never influences an answer (`watchdog <s>` re-arms it)
@@ -1076,7 +1297,12 @@ int main()
         else if (op == "start")
             c.starts.push_back(rest);
         else if (op == "goal")
-            c.goal = rest;
+        {
+            if (c.goal.empty())
+                c.goal = rest;
+            else
+                c.moreGoals.push_back(rest);
+        }
         else if (op == "thr" && f1())
             c.thr = *f1();
         else if (op == "planner" && rest.size() == 1)
@@ -1103,8 +1329,10 @@ int main()
             c.budget = *vp::parseNat(rest[0]);
             c.pollcap = *vp::parseNat(rest[1]);
         }
-        else if (op == "mode" && rest.size() == 1 && (rest[0] == "run" || rest[0] == "lockstep"))
+        else if (op == "mode" && rest.size() == 1 && (rest[0] == "run" || rest[0] == "lockstep" || rest[0] == "history"))
             c.mode = rest[0];
+        else if (op == "hist")
+            c.hist = rest;
         else if (op == "trace" && rest.size() == 1 && (rest[0] == "0" || rest[0] == "1"))
             c.trace = rest[0] == "1";
         else if (op == "oneway" && rest.size() == 4)
@@ -1142,6 +1370,8 @@ int main()
     }
     try
     {
+        if (c.mode == "history")
+            return runHistory(c);
         return runOnce(c);
     }
     catch (const vp::ParseError &e)
